@@ -40,10 +40,32 @@ def quiet():
 
 # ---- problem families ----------------------------------------------------------------------
 
+def gen_pinned(rng):
+    """One knob whose solution lies just beyond a limit, with a finite-difference step of the size of the
+    tolerance: the point pinned on the limit is NOT within tolerance, the Jacobian's probe point next to it
+    may be.  (A solve that ends on the limit must fail and restore, whatever was evaluated last.)"""
+    m = rng.randint(1, 2)
+    s = rng.choice([1e-3, 1e-2, 1e-4])
+    upper = rng.random() < 0.7
+    pin = rng.uniform(0.5, 1.5) * rng.choice([-1, 1])
+    a = [rng.choice([-1, 1]) * rng.uniform(0.5, 2.0) for _ in range(m)]
+    beyond = pin + (2 * s if upper else -2 * s)
+    spec = {"n": 1, "m": m, "kind": "lin", "A": [[v] for v in a], "shift": [2.0] * m,
+            "tars": [v * beyond for v in a], "x0": [pin - rng.uniform(0.2, 1.0) * (1 if upper else -1)],
+            "limits": [(pin - 3.0, pin) if upper else (pin, pin + 3.0)],
+            "max_step": [None], "wv": [rng.choice([1.0, 1.0, 0.25])], "wt": [1.0] * m,
+            "tol": [1.5 * s * abs(v) for v in a], "dis_v": [False], "dis_t": [False] * m,
+            "n_steps_max": rng.choice([10, 25, 40]), "broyden": rng.choice([False, False, True]), "step": s,
+            "family": "pinned"}
+    return spec
+
+
 def gen_problem(rng, families=("lin", "quad", "trig", "pole", "incons", "rankdef"), hard_limits=False):
     n = rng.randint(1, 4)
     m = rng.randint(1, 5)
     kind = rng.choice(families)
+    if kind == "pinned":
+        return gen_pinned(rng)
     A = [[rng.uniform(-2, 2) for _ in range(n)] for _ in range(m)]
     if kind == "rankdef" and n >= 2:
         for row in A:
